@@ -2,6 +2,7 @@ import KsVerif.Base.Verdict
 import KsVerif.Api.Progress
 import KsVerif.Sched.Driver
 import KsVerif.Redis.Driver
+import KsVerif.Kfl.MacroDriver
 open KsVerif
 
 /-- One case: family, payload, implementation observation → verdict. -/
@@ -12,6 +13,7 @@ def judge (fam payload impl : String) : Verdict :=
   | "redis.convsplit" => Redis.Driver.judgeConv payload impl (splitMode := true)
   | "redis.raw" => Redis.Driver.judgeRaw payload impl
   | "redis.split" => Redis.Driver.judgeRaw payload impl (splitMode := true)
+  | "kfl.macro" => Kfl.Macro.judge payload impl
   | "sched.emit" => Sched.judgeEmit payload impl
   | "sched.dump" => Sched.judgeDump payload impl
   | _ =>
